@@ -22,7 +22,8 @@ META = {
              "path (interval 0), under the 1 s write ticker (kind p1t) and through CompactSwamp it is TESTED by the correspondence "
              "run (classify never answers 'holds': the delete path of the model is not governed by an extracted fact yet). The file "
              "format itself is C01. encoding/gob's zero omission is modelled (validated by the 28-value table case on both write "
-             "paths), not verified."),
+             "paths), not verified. Keys: the theorems are about keys the file format can hold (non-empty, < 64 KiB); for the others "
+             "the driver, not the Lean model, reproduces the loss (finding unstorable-key-acknowledged)."),
     "design_ref": "§8 C05",
 }
 
@@ -31,6 +32,9 @@ FINDINGS = {
                                     "writer runs — SaveFunction replaces the queued delete by the new treasure, deleteHandler then drops the "
                                     "unwritten treasure from the write buffer, nothing is written, and the originally persisted record is back "
                                     "after close + reload"),
+    "C05-unstorable-key-acknowledged": ("Set / Increment / Uint32SlicePush accept the empty key and keys of 65536 bytes and more and answer NEW; the "
+                                        "V2 writer refuses such entries (empty key; key length is a 16-bit field) and only logs it, so the record is "
+                                        "readable until the swamp closes and is gone after the reload (a 65535-byte key survives)"),
     "C05-zero-like-reloads-void": ("gob omits zero-valued fields: Int8..Uint64 0, Float32/64 ±0.0, false, \"\", empty bytes and an empty "
                                    "uint32 slice have their content type before a close and come back as void (no value) after it; "
                                    "metadata survives"),
